@@ -43,15 +43,15 @@ NEEDS_EXT = True
 TRUSTED = [
     "C14 kernel formats (Spec/C14.lean): link texts of /proc/pid/fd (path, path+' (deleted)', socket:[i], pipe:[i], anon_inode:x), fdinfo = 'pos:\\t%lli\\nflags:\\t0%o\\n'+further lines, /proc/pid/io = 'name: %llu' lines; O_ACCMODE = flags mod 4, O_APPEND = 0o2000 (asm-generic ABI)",
     "C14 model of CPython: int(bytes) base 10 for /proc/pid/io values = blanks, optional sign, digits with single '_' between digits (pyIntZ; the 4300-digit limit of CPython is not modelled) — shared by model and specification as the definition of 'a number'; int() of the fdinfo tokens on (blank-padded) plain digit strings only (no sign, '_' or 0o prefix: the kernel prints %lli / 0%o); bytes.split/strip/replace, dict as newest-first association list; surrogateescape decoding of link texts modelled as identity on bytes",
-    "C14 world: os.stat of a target answers regular file / something else or nothing / EACCES (EPERM is the same PermissionError class); a process is running, a zombie (state Z in /proc/pid/stat) or gone; EACCES is injected at os.readlink, os.stat, open, os.listdir by the harness (not produced by a real permission check)",
+    "C14 world: os.stat of a target answers regular file / something else / nothing (ENOENT) / EACCES (EPERM is the same PermissionError class) / any other errno, raised as the OSError subclass CPython picks for it (ENOTDIR, ELOOP and ENAMETOOLONG are also produced by the REAL file system of the run: a file where a directory was, a symlink loop, a 300-byte component; the other errnos are injected per name by the harness); a process is running, a zombie (state Z in /proc/pid/stat) or gone; EACCES is injected at os.readlink, os.stat, open, os.listdir by the harness (not produced by a real permission check)",
 ]
 ASSUMPTIONS = [
-    "well-formed tables: a link text ending in ' (deleted)' is not ambiguous (no file literally carries that name next to an unlinked one), device/other absolute paths are not regular files, relative targets do not start with '/'; os.stat of a non-absolute link text (relative to the monitor's cwd) is never refused; a device path 'x (deleted)' whose 'x' cannot be stat'ed cannot be stat'ed itself",
+    "well-formed tables: a link text ending in ' (deleted)' is not ambiguous (no file literally carries that name next to an unlinked one), device/other absolute paths are not regular files, relative targets do not start with '/'; os.stat of a non-absolute link text (relative to the monitor's cwd) is never refused; a device path 'x (deleted)' whose 'x' cannot be stat'ed cannot be stat'ed itself; a name whose os.stat fails (with whatever errno) is neither a regular file nor existing (the same os.stat cannot both fail and succeed: Spec.StatCoherent, checked by the driver on every case)",
     "permission: a refusal (EACCES/EPERM) while listing /proc/pid/fd or inspecting any descriptor met while the process is still there is answered with AccessDenied(pid) (psutil's documented contract) — the reading 'an uninspectable descriptor is skipped' is refuted as a theorem (C14_uninspectable_not_skipped) and documented, not counted as a violation",
     "io: EVERY content has a promised answer (Spec/C14Io.lean): a counter line is, blanks removed, NAME ': ' NUMBER with exactly one separator and a NUMBER Python's int() reads; every other line is ignored; names are compared byte for byte ('syscr ' is another name); a repeated name: the last line counts; a negative NUMBER is reported as it is (the kernel prints %llu: characterisation, not a violation). The round-1 item-level theorems (names without ':', distinct, junk without ': ') are an instance (C14_io_specs_agree)",
 ]
 MANIFEST = {
-    "level_text": "Machine-checked Lean 4 proofs over a model of _pslinux.Process.open_files/num_fds/io_counters, readlink() and file_flags_to_mode(): the mode string is the documented function of O_ACCMODE x O_APPEND for EVERY flag word (other bits proved irrelevant, total including access mode 3), open_files over the kernel-rendered descriptor table equals the list of still-open regular absolute descriptors for ALL tables (induction; pos decimal, flags octal round trip for all naturals), closing descriptors (before readlink, before the open of fdinfo, or after it at the first/second read; ENOENT/ESRCH; any subset) never fail a live process, a vanished process gives NoSuchProcess, refusals (EACCES at the readlink, at the os.stat of the target through isfile_strict/path_exists_strict, at the open of fdinfo, at listing /proc/pid/fd) give AccessDenied(pid) and never a bare PermissionError or a silently shortened list, only a successfully stat'ed regular absolute target ever yields an entry (relative targets are never stat'ed), a zombie with an empty table gives [] / 0 and ENOENT/ESRCH about a zombie is ZombieProcess, num_fds = table length, io_counters returns the six kernel counters under the documented names for all values and is exact on EVERY file content (C14_io_any_content: any bytes; counter line = NAME ': ' NUMBER with one separator and a NUMBER int() reads, sign and '_' included; every other line ignored; last line of a name counts; RuntimeError without any counter line, ValueError when one of the six is missing), inserting any non-counter line anywhere or any counter of another name never changes the answer; num_fds() and open_files() are consistent on a live inspectable process (every listed descriptor was counted, num_fds - len(open_files) = number of descriptors that are not still-open regular files) and len(open_files) <= num_fds in every world. Tied to the code by 35 translator facts (incl. filterExact: the listing filter has no clause about the path besides startswith('/')) (incl. the PermissionError rows of isfile_strict, path_exists_strict, the loop's handlers and wrap_exceptions) consumed by the proof obligations cfg_good_* and by a differential run of the real front-end methods on a fake procfs in seven call modes (plain, oneshot, warm oneshot after a world change, as_dict, process_iter object first/cached, second call) (exhaustive over all 4096 low flag words, both through file_flags_to_mode and end to end; all modes x methods on the corpus; every /proc/pid/io line of up to 3 (quick) / 4 (thorough) tokens of a 9-token alphabet appended to / put before / replacing the kernel's own line; num_fds/open_files/num_fds on one object and one table).",
+    "level_text": "Machine-checked Lean 4 proofs over a model of _pslinux.Process.open_files/num_fds/io_counters, readlink() and file_flags_to_mode(): the mode string is the documented function of O_ACCMODE x O_APPEND for EVERY flag word (other bits proved irrelevant, total including access mode 3), open_files over the kernel-rendered descriptor table equals the list of still-open regular absolute descriptors for ALL tables (induction; pos decimal, flags octal round trip for all naturals), closing descriptors (before readlink, before the open of fdinfo, or after it at the first/second read; ENOENT/ESRCH; any subset) never fail a live process, a vanished process gives NoSuchProcess, refusals (EACCES at the readlink, at the os.stat of the target through isfile_strict/path_exists_strict, at the open of fdinfo, at listing /proc/pid/fd) give AccessDenied(pid) and never a bare PermissionError or a silently shortened list, only a successfully stat'ed regular absolute target ever yields an entry (relative targets are never stat'ed), a target whose os.stat fails with ANY other errno / exception class (ENOTDIR, ELOOP, ENAMETOOLONG, ESTALE, EIO, …: FS.statErr) is left out and never fails the call (C14_unstatable_left_out) and the table of stat failures never changes the answer of any process (C14_stat_errno_never_matters; refuted for a helper that only catches FileNotFoundError: C14_unstatable_needs_catch_all), a zombie with an empty table gives [] / 0 and ENOENT/ESRCH about a zombie is ZombieProcess, num_fds = table length, io_counters returns the six kernel counters under the documented names for all values and is exact on EVERY file content (C14_io_any_content: any bytes; counter line = NAME ': ' NUMBER with one separator and a NUMBER int() reads, sign and '_' included; every other line ignored; last line of a name counts; RuntimeError without any counter line, ValueError when one of the six is missing), inserting any non-counter line anywhere or any counter of another name never changes the answer; num_fds() and open_files() are consistent on a live inspectable process (every listed descriptor was counted, num_fds - len(open_files) = number of descriptors that are not still-open regular files) and len(open_files) <= num_fds in every world. Tied to the code by 48 translator facts (incl. the ordered except-clause lists of isfile_strict / path_exists_strict) (incl. filterExact: the listing filter has no clause about the path besides startswith('/')) (incl. the PermissionError rows of isfile_strict, path_exists_strict, the loop's handlers and wrap_exceptions) consumed by the proof obligations cfg_good_* and by a differential run of the real front-end methods on a fake procfs in seven call modes (plain, oneshot, warm oneshot after a world change, as_dict, process_iter object first/cached, second call) (exhaustive over all 4096 low flag words, both through file_flags_to_mode and end to end; all modes x methods on the corpus; every /proc/pid/io line of up to 3 (quick) / 4 (thorough) tokens of a 9-token alphabet appended to / put before / replacing the kernel's own line; num_fds/open_files/num_fds on one object and one table).",
     "level_note": "Trusted: Lean kernel + {propext, Classical.choice, Quot.sound}; the translator; the correspondence harness; kernel formats as written in Spec/C14.lean; CPython int/split/strip/replace as modelled; EACCES and the zombie state are injected by the harness, not produced by a real kernel permission check.",
     "technique": "Lean 4 proofs (finite case analysis on flags via bit lemmas, list induction over tables, round trip of decimal/octal renderers) + translator-fed proof obligation + differential correspondence on a fake procfs",
     "design_ref": "DESIGN.md §5 C14",
@@ -84,7 +84,7 @@ def enc_path(sym, root):
     b = bytes.fromhex(hx)
     if kind == "R":
         return os.fsencode(root) + b"/" + b
-    return b
+    return b               # "A" (absolute) and "T" (literal text)
 
 
 DEL = b" (deleted)"
@@ -114,6 +114,29 @@ V_ROOT_NODES = {b"nodes/chr": "chr", b"nodes/null": "chr", b"dev/null": "chr"}  
 V_FILES = sorted(k for k, v in VIRTUAL.items() if v == "file")
 V_OTHERS = sorted(k for k, v in VIRTUAL.items() if v in ("dir", "fifo", "chr"))
 V_NONE = sorted(k for k, v in VIRTUAL.items() if v == "none")
+
+# seeded round 5 — names whose os.stat fails with an errno that is neither ENOENT nor EACCES / EPERM.
+# REAL ones (the real os.stat of the harness and of psutil answers; nothing scripted): `notdir` is a regular file, so
+# everything "under" it is ENOTDIR (a directory that was removed and whose name was taken by a file); `loop` is a
+# symlink to itself (ELOOP); a 300-byte component is ENAMETOOLONG.
+LONG_NAME = b"L" * 300
+POOL_UNSTATABLE = [b"notdir/f", b"notdir/sub/deep", b"loop/g", LONG_NAME, LONG_NAME + b"/x"]
+# SCRIPTED ones: a case may carry "stat_fail": [[path-sym, errno], …] — os.stat of exactly these names fails with that
+# errno in this case, whatever the name (a pool file, a virtual name, a non-absolute link text)
+STAT_ERRNOS = [errno.ENOTDIR, errno.ELOOP, errno.ENAMETOOLONG, errno.ESTALE, errno.EIO, errno.ENOTCONN, errno.EOVERFLOW,
+               errno.ENOMEM, errno.ETIMEDOUT, errno.EBUSY, errno.ENXIO, errno.EINTR, errno.ENODEV, errno.EHOSTDOWN]
+ALL_STAT_ERRNOS = sorted(e for e in errno.errorcode if e not in (errno.ENOENT, errno.EACCES, errno.EPERM))
+
+
+def T(text):
+    """a literal (possibly non-absolute) name, for "stat_fail" entries"""
+    return ["T", bytes(text).hex()]
+
+
+def err_cls(en):
+    """the OSError subclass CPython raises for an errno"""
+    return type(OSError(en, "x")).__name__
+
 
 MODES = ["plain", "oneshot", "warm", "as_dict", "iter", "iter2", "second"]
 DECOY_MODES = ("warm", "second")
@@ -153,6 +176,10 @@ class Impl:
             os.mkfifo(os.fsencode(self.root) + b"/" + f)
         self.sec = os.fsencode(self.root) + b"/" + SEC
         rootb = os.fsencode(self.root)
+        with open(rootb + b"/notdir", "wb") as fh:       # a FILE where a directory used to be: <root>/notdir/f → ENOTDIR
+            fh.write(b"x")
+        os.symlink(b"loop", rootb + b"/loop")            # a symlink to itself: <root>/loop/g → ELOOP
+        self.stat_fail = {}
         backing = {"file": rootb + b"/f0", "dir": rootb + b"/dir", "fifo": rootb + b"/fifo", "chr": b"/dev/null"}
         self.virtual = {k: backing.get(v) for k, v in VIRTUAL.items()}
         self.virtual.update({rootb + b"/" + k: backing[v] for k, v in V_ROOT_NODES.items()})
@@ -173,11 +200,17 @@ class Impl:
                     if c and not c.startswith(b"/"):
                         ref.add(c)
         self.rel_refused = frozenset(ref)
+        # seeded round 5: the names whose os.stat fails with another errno in this case
+        self.stat_fail = {enc_path(sym, self.root): int(en) for sym, en in case.get("stat_fail") or []}
 
     def scripted_stat(self, path_bytes, real_stat):
-        """os.stat as the monitor sees it: refused under sec/, scripted for the virtual names"""
+        """os.stat as the monitor sees it: refused under sec/, failing with the case's errno for the names of
+        `stat_fail`, scripted for the virtual names"""
         if path_bytes.startswith(self.sec) or path_bytes in self.rel_refused:
             raise OSError(errno.EACCES, os.strerror(errno.EACCES), os.fsdecode(path_bytes))
+        if path_bytes in self.stat_fail:
+            en = self.stat_fail[path_bytes]
+            raise OSError(en, os.strerror(en), os.fsdecode(path_bytes))
         if path_bytes in self.virtual:
             b = self.virtual[path_bytes]
             if b is None:
@@ -193,6 +226,8 @@ class Impl:
     def classify(self, path_bytes):
         if path_bytes in self.rel_refused:
             return "denied"
+        if path_bytes in self.stat_fail and not path_bytes.startswith(self.sec):
+            return ("fail", self.stat_fail[path_bytes])
         if path_bytes in self.stat_cache:
             return self.stat_cache[path_bytes]
         r = "none"
@@ -202,14 +237,18 @@ class Impl:
             try:
                 st = self.scripted_stat(path_bytes, os.stat) or os.stat(path_bytes)
                 r = "file" if stat_mod.S_ISREG(st.st_mode) else "other"
-            except OSError:
-                r = "none"
+            except PermissionError:
+                r = "denied"
+            except OSError as e:
+                # ENOENT: nothing there. Any other errno (ENOTDIR, ELOOP, ENAMETOOLONG … from the REAL os.stat): the
+                # name cannot be stat'ed — its own answer in the model's file system (FS.statErr)
+                r = "none" if e.errno == errno.ENOENT else ("fail", e.errno)
         self.stat_cache[path_bytes] = r
         return r
 
     def fs_view(self, texts):
         """files / others lists for the driver: every name the code could possibly stat"""
-        files, others, denied = [], [], []
+        files, others, denied, stat_err = [], [], [], []
         seen = set()
         for t in texts:
             cands = [t, t.split(b"\x00")[0]]
@@ -227,7 +266,9 @@ class Impl:
                     others.append(c.hex())
                 elif k == "denied":
                     denied.append(c.hex())
-        return files, others, denied
+                elif isinstance(k, tuple):
+                    stat_err.append({"p": c.hex(), "en": k[1], "cls": err_cls(k[1]).encode().hex()})
+        return files, others, denied, stat_err
 
     # ---- fake /proc/<pid>
     def stat_line(self, zombie=False):
@@ -568,8 +609,8 @@ def table_line(impl, case):
         elif k["t"] in ("socket", "pipe"):
             texts.append(b"%s:[%d]" % (k["t"].encode(), k["ino"]))
     impl.set_case(case, texts)
-    files, others, denied = impl.fs_view(texts)
-    return {"op": "table", "fds": fds, "files": files, "others": others, "denied": denied,
+    files, others, denied, stat_err = impl.fs_view(texts)
+    return {"op": "table", "fds": fds, "files": files, "others": others, "denied": denied, "stat_err": stat_err,
             "gone_before": bool(case.get("gone_before")), "dies_at": case.get("dies_at"),
             "dies_after_link": bool(case.get("dies_after_link")),
             "zombie": bool(case.get("zombie")), "dir_denied": bool(case.get("dir_denied")), "_texts": [t.hex() for t in texts]}
@@ -587,8 +628,8 @@ def raw_line(impl, case):
             texts.append(bytes.fromhex(link["ok"]))
         entries.append({"name": e["name"], "link": link, "info": e["info"]})
     impl.set_case(case, texts)
-    files, others, denied = impl.fs_view(texts)
-    return {"op": "raw", "_texts": [t.hex() for t in texts], "listdir": case.get("listdir", "ok"), "alive": not case.get("gone_after", False),
+    files, others, denied, stat_err = impl.fs_view(texts)
+    return {"op": "raw", "stat_err": stat_err, "_texts": [t.hex() for t in texts], "listdir": case.get("listdir", "ok"), "alive": not case.get("gone_after", False),
             "zombie": bool(case.get("zombie")),
             "entries": entries, "files": files, "others": others, "denied": denied}
 
@@ -622,6 +663,8 @@ def eval_table(impl, case, out):
     """→ (impl_obs, model_obs, spec_obs or None)"""
     if "bad" in out:
         raise RuntimeError("driver rejected %r: %s" % (case, out))
+    if not out.get("coherent", True):
+        raise RuntimeError("harness file system incoherent (a name both fails os.stat and exists): %r" % (case,))
     entries = out["render"]["listdir"].get("ok", [])
     n = len(case["fds"])
     da = case.get("dies_at")
@@ -708,6 +751,8 @@ def run_tables(ctx, impl, cases, res, tag="table"):
     for c, l, o in zip(cases, lines, outs):
         impl.set_case(c, [bytes.fromhex(t) for t in l["_texts"]])
         im, mo, sp = eval_table(impl, c, o)
+        o["_stat_err"] = l.get("stat_err", [])
+        o["_stat_fail_hex"] = [p.hex() for p in impl.stat_fail]
         feats = table_features(c, o)
         for f in feats:
             res.count("table:" + f)
@@ -876,6 +921,16 @@ def table_features(case, out):
             f.add("death-unnoticed(full list)")
     if case.get("rel_denied"):
         f.add("rel-denied")
+    for sym, en in case.get("stat_fail") or []:
+        f.add("stat-fails-" + (errno.errorcode.get(en, str(en)) if en in STAT_ERRNOS else "another-errno(sweep over all %d)" % len(ALL_STAT_ERRNOS)))
+        f.add("stat-fails-class-" + err_cls(en))
+        nm = bytes.fromhex(sym[1])
+        f.add("stat-fails-at-" + ("marker-text" if nm.endswith(DEL) else "name") + ("(non-absolute)" if sym[0] == "T" else ""))
+    for se in out.get("_stat_err", []):
+        if not any(enc == se["p"] for enc in out.get("_stat_fail_hex", [])):
+            f.add("stat-fails(real fs)-" + errno.errorcode.get(se["en"], str(se["en"])))
+    if (case.get("stat_fail") or out.get("_stat_err")) and out["spec"]["open_files"]["kind"] == "ok":
+        f.add("unstatable-target-left-out(call succeeds)")
     if len(case["fds"]) >= 300:
         f.add("descriptors>=300")
     if len(case["fds"]) >= 2000:
@@ -972,8 +1027,70 @@ def gen_closes(rng, p):
     return c
 
 
+def gen_stat_errno(rng):
+    """an errno other than ENOENT / EACCES / EPERM: mostly the ones a file system really answers, sometimes any"""
+    return rng.choice(STAT_ERRNOS) if rng.random() < 0.8 else rng.choice(ALL_STAT_ERRNOS)
+
+
+def _sym_plus(sym, suffix):
+    return [sym[0], (bytes.fromhex(sym[1]) + suffix).hex()]
+
+
+def overlay_stat_fail(rng, case, p):
+    """seeded round 5: make os.stat of names the scan looks at FAIL (errno ≠ ENOENT / EACCES / EPERM) in this case —
+    each path-carrying descriptor with probability `p`; which of the names it may stat (the name, the name with the
+    ' (deleted)' marker, the marker-less cut) is drawn too. Names under sec/ (refused) are left alone."""
+    sf = {}
+
+    def put(sym, en):
+        if sym[0] == "R" and bytes.fromhex(sym[1]).startswith(SEC):
+            return
+        sf[(sym[0], sym[1])] = en
+    for d in case["fds"]:
+        k = d["kind"]
+        if rng.random() >= p:
+            continue
+        en = gen_stat_errno(rng)
+        if k["t"] == "regular":
+            if k.get("deleted"):
+                which = rng.choice(["both", "both", "name", "marker"])
+                if which in ("both", "name"):
+                    put(k["path"], en)
+                if which in ("both", "marker"):
+                    put(_sym_plus(k["path"], DEL), en if rng.random() < 0.7 else gen_stat_errno(rng))
+            else:
+                put(k["path"], en)
+        elif k["t"] == "device":
+            pb = bytes.fromhex(k["path"][1])
+            which = rng.choice(["name", "cut", "both"]) if pb.endswith(DEL) else "name"
+            if which in ("name", "both"):
+                put(k["path"], en)
+            if which in ("cut", "both"):
+                put([k["path"][0], pb[:-len(DEL)].hex()], en)
+        elif k["t"] == "relative" and "target" in k and bytes.fromhex(k["target"]).endswith(DEL):
+            put(T(bytes.fromhex(k["target"])), en)          # the marker rule looks a non-absolute text up too
+        elif k["t"] == "anon" and bytes.fromhex(k["name"]).endswith(DEL):
+            put(T(b"anon_inode:" + bytes.fromhex(k["name"])), en)
+    if sf:
+        case["stat_fail"] = sorted([[list(k), v] for k, v in sf.items()])
+    return case
+
+
+def gen_unstatable_kind(rng):
+    """a descriptor whose target cannot be stat'ed on the REAL file system of the run (nothing scripted)"""
+    path = P(rng.choice(POOL_UNSTATABLE))
+    r = rng.random()
+    if r < 0.5:
+        return {"t": "regular", "path": path, "deleted": True}       # unlinked together with its directory (the usual way)
+    if r < 0.8:
+        return {"t": "regular", "path": path, "deleted": False}
+    return {"t": "device", "path": path}
+
+
 def gen_table(rng, family):
     n = rng.choice([0, 1, 2, 3, 4, 5, 8, 13, 21, 40, 64]) if family != "small" else rng.randrange(0, 5)
+    if family == "unstatable":
+        n = max(1, min(n, 21))
     if family == "empty":
         n = 0
     if family == "zombie":
@@ -990,6 +1107,15 @@ def gen_table(rng, family):
         kind = gen_kind(rng, allow_ambiguous=(family == "ambiguous"))
         if family == "regular_only":
             kind = {"t": "regular", "path": P(rng.choice(POOL_FILES[:7])), "deleted": False}
+        if family == "unstatable":
+            r_u = rng.random()
+            if r_u < 0.3:
+                kind = gen_unstatable_kind(rng)
+            elif r_u < 0.55:
+                kind = rng.choice([{"t": "regular", "path": P(rng.choice(POOL_FILES[:7] + POOL_MISSING)), "deleted": rng.random() < 0.6},
+                                   {"t": "device", "path": rng.choice([P(b"dir (deleted)"), A("/memfd:psv (deleted)"), P(b"dir"), A("/dev/null")])},
+                                   {"t": "relative", "target": rng.choice([b"a (deleted)", b"(unreachable)/x (deleted)"]).hex()},
+                                   {"t": "anon", "name": b"x (deleted)".hex()}])
         if family == "deleted" and rng.random() < 0.7:
             kind = rng.choice([
                 {"t": "regular", "path": P(b"f0"), "deleted": True},
@@ -1042,12 +1168,48 @@ def gen_table(rng, family):
         case["dies_after_link"] = True      # round 3: death between the readlink and the fdinfo of descriptor k
     if rng.random() < 0.15:
         case["rel_denied"] = True           # round 3: os.stat of every non-absolute link text is refused
+    # seeded round 5: os.stat of some of the names failing with another errno — the family's own dimension, and a
+    # sprinkle over every other family (next to closing descriptors, refusals, deaths, zombies, call modes)
+    if family == "unstatable":
+        overlay_stat_fail(rng, case, 0.6)
+    elif rng.random() < 0.12:
+        overlay_stat_fail(rng, case, 0.3)
     return case
 
 
-PAIR_FAMILIES = ["mixed", "regular_only", "closing", "all_closing", "deleted", "small", "ambiguous", "empty", "denied", "exits"]
+PAIR_FAMILIES = ["mixed", "regular_only", "closing", "all_closing", "deleted", "small", "ambiguous", "empty", "denied", "exits",
+                 "unstatable"]
 TABLE_FAMILIES = ["mixed", "regular_only", "closing", "all_closing", "deleted", "dies", "gone", "small",
-                  "ambiguous", "empty", "mixed", "closing", "denied", "zombie", "denied", "exits"]
+                  "ambiguous", "empty", "mixed", "closing", "denied", "zombie", "denied", "exits", "unstatable", "unstatable"]
+
+
+def stat_errno_sweep(errnos=None):
+    """EXHAUSTIVE over the errno: for EVERY errno the host defines except ENOENT / EACCES / EPERM, one live table in
+    which os.stat fails with it at each place the scan can meet it — `3`: a file unlinked together with its directory
+    (name and marker text both fail: path_exists_strict then isfile_strict), `4`: a name without marker that fails
+    (isfile_strict only: a dead mount), `5`: a non-regular descriptor whose marker text fails, `6`: marker text fails,
+    the marker-less name is a regular file (listed under that name), `7`: a non-absolute text with the marker, `8`: the
+    control file. Each errno also once on its own per stat site (3 one-descriptor tables)."""
+    def fd(n, kind, flags=0o100002):
+        return {"n": n, "kind": kind, "pos": n * 11, "flags": flags, "tail": "", "closes": None}
+    out = []
+    for en in (errnos if errnos is not None else ALL_STAT_ERRNOS):
+        fds = [fd(3, {"t": "regular", "path": P(b"unst/d/f"), "deleted": True}, 1),
+               fd(4, {"t": "regular", "path": P(b"unst/m"), "deleted": False}, 0),
+               fd(5, {"t": "device", "path": P(b"dir (deleted)")}),
+               fd(6, {"t": "regular", "path": P(b"f0"), "deleted": True}),
+               fd(7, {"t": "relative", "target": b"(unreachable)/x (deleted)".hex()}, 0),
+               fd(8, {"t": "regular", "path": P(b"data.log"), "deleted": False}, 0o102002)]
+        sf = [[P(b"unst/d/f"), en], [P(b"unst/d/f" + DEL), en], [P(b"unst/m"), en], [P(b"dir (deleted)"), en],
+              [P(b"f0" + DEL), en], [T(b"(unreachable)/x (deleted)"), en]]
+        out.append({"family": "stat_errno_sweep", "gone_before": False, "dies_at": None, "mode": "plain", "fds": fds, "stat_fail": sf})
+        out.append({"family": "stat_errno_sweep", "gone_before": False, "dies_at": None, "mode": "plain",
+                    "fds": [fds[0]], "stat_fail": [sf[1]]})          # path_exists_strict only
+        out.append({"family": "stat_errno_sweep", "gone_before": False, "dies_at": None, "mode": "plain",
+                    "fds": [fds[0]], "stat_fail": [sf[0]]})          # isfile_strict only, after the marker was cut
+        out.append({"family": "stat_errno_sweep", "gone_before": False, "dies_at": None, "mode": "plain",
+                    "fds": [fds[1]], "stat_fail": [sf[2]]})          # isfile_strict only, no marker
+    return out
 
 
 def kind_prefix_sweep():
@@ -1150,6 +1312,25 @@ def gen_raw(rng):
         case["zombie"] = True
     if rng.random() < 0.15:
         case["rel_denied"] = True
+    if rng.random() < 0.2:
+        # seeded round 5: os.stat of some link texts (whole / NUL-cut / marker-less) fails with another errno
+        sf = {}
+        for e in entries:
+            link = e["link"]
+            if "sym" in link and rng.random() < 0.5 and not bytes.fromhex(link["sym"][1]).startswith(SEC):
+                full = bytes.fromhex(link["sym"][1]) + bytes.fromhex(link.get("suffix", ""))
+                cut = full.split(b"\x00")[0]
+                for nm in {cut, cut[:-len(DEL)] if cut.endswith(DEL) else cut}:
+                    if rng.random() < 0.7:
+                        sf[("R", nm.hex())] = gen_stat_errno(rng)
+            elif "ok" in link and rng.random() < 0.5:
+                cut = bytes.fromhex(link["ok"]).split(b"\x00")[0]
+                for nm in {cut, cut[:-len(DEL)] if cut.endswith(DEL) else cut}:
+                    if nm and rng.random() < 0.7:
+                        sf[("T", nm.hex())] = gen_stat_errno(rng)
+        if sf:
+            case["stat_fail"] = sorted([[list(k), v] for k, v in sf.items()])
+            case["family"] = "malformed+unstatable"
     r = rng.random()
     if r < 0.08:
         case["listdir"] = rng.choice(["ENOENT", "ESRCH", "EACCES"])
@@ -1391,6 +1572,45 @@ def corpus_tables():
             {"n": 8, "kind": {"t": "regular", "path": P(b"sub/nl\n"), "deleted": True}, "pos": 3, "flags": 2, "tail": "", "closes": None},
             {"n": 9, "kind": {"t": "device", "path": P(b"dir (deleted)")}, "pos": 0, "flags": 0, "tail": "", "closes": None}],
          "gone_before": False, "dies_at": None},
+        # ---- seeded round 5: targets that can no longer be stat'ed, REAL file system (nothing scripted): the directory of an
+        # open file was removed and a regular file / a symlink loop took its name (ENOTDIR / ELOOP), a name too long for
+        # the monitor (ENAMETOOLONG); control file with O_RDWR|O_APPEND
+        {"family": "corpus-unstatable-real", "gone_before": False, "dies_at": None, "fds": [
+            {"n": 3, "kind": {"t": "regular", "path": P(b"data.log"), "deleted": False}, "pos": 5, "flags": 0o102002, "tail": "", "closes": None},
+            {"n": 4, "kind": {"t": "regular", "path": P(b"notdir/f"), "deleted": True}, "pos": 0, "flags": 0o100001, "tail": "", "closes": None},
+            {"n": 5, "kind": {"t": "regular", "path": P(b"loop/g"), "deleted": True}, "pos": 0, "flags": 0o100000, "tail": "", "closes": None},
+            {"n": 6, "kind": {"t": "regular", "path": P(LONG_NAME), "deleted": True}, "pos": 0, "flags": 0, "tail": "", "closes": None},
+            {"n": 7, "kind": {"t": "regular", "path": P(b"notdir/sub/deep"), "deleted": False}, "pos": 9, "flags": 2, "tail": "", "closes": None},
+            {"n": 8, "kind": {"t": "device", "path": P(b"loop/g")}, "pos": 0, "flags": 0, "tail": "", "closes": None}]},
+        # … scripted: a dead network / FUSE mount (ESTALE, ENOTCONN, EIO, ETIMEDOUT) under names WITHOUT marker, next to
+        # closing descriptors
+        {"family": "corpus-unstatable-dead-mount", "gone_before": False, "dies_at": None,
+         "stat_fail": [[P(b"f0"), errno.ESTALE], [P(b"sub/inner.txt"), errno.ENOTCONN], [A(b"/dev/shm/x"), errno.EIO],
+                       [P(b"dir"), errno.ETIMEDOUT]],
+         "fds": [
+            {"n": 3, "kind": reg, "pos": 1, "flags": 2, "tail": "", "closes": None},
+            {"n": 4, "kind": {"t": "regular", "path": P(b"sub/inner.txt"), "deleted": False}, "pos": 1, "flags": 1, "tail": "", "closes": None},
+            {"n": 5, "kind": {"t": "regular", "path": A(b"/dev/shm/x"), "deleted": False}, "pos": 1, "flags": 0, "tail": "", "closes": None},
+            {"n": 6, "kind": {"t": "device", "path": P(b"dir")}, "pos": 0, "flags": 0o200000, "tail": "", "closes": None},
+            {"n": 7, "kind": {"t": "regular", "path": P(b"data.log"), "deleted": False}, "pos": 2, "flags": 0o101001, "tail": "", "closes": None},
+            {"n": 8, "kind": {"t": "regular", "path": P(b"caf\xc3\xa9"), "deleted": False}, "pos": 2, "flags": 2, "tail": "",
+             "closes": {"stage": "fdinfo", "errno": "ENOENT"}}]},
+        # … only the MARKER text fails (path_exists_strict): the marker is dropped, the marker-less name decides
+        {"family": "corpus-unstatable-marker", "gone_before": False, "dies_at": None,
+         "stat_fail": [[P(b"f0" + DEL), errno.ELOOP], [P(b"gone.txt" + DEL), errno.ENAMETOOLONG], [T(b"a (deleted)"), errno.ENOTDIR],
+                       [T(b"anon_inode:x (deleted)"), errno.EIO], [A(b"/memfd:psv (deleted)"), errno.ENOTDIR]],
+         "fds": [
+            {"n": 3, "kind": {"t": "regular", "path": P(b"f0"), "deleted": True}, "pos": 5, "flags": 2, "tail": "", "closes": None},
+            {"n": 4, "kind": {"t": "regular", "path": P(b"gone.txt"), "deleted": True}, "pos": 5, "flags": 2, "tail": "", "closes": None},
+            {"n": 5, "kind": {"t": "relative", "target": b"a (deleted)".hex()}, "pos": 0, "flags": 0, "tail": "", "closes": None},
+            {"n": 6, "kind": {"t": "anon", "name": b"x (deleted)".hex()}, "pos": 0, "flags": 0, "tail": "", "closes": None},
+            {"n": 7, "kind": {"t": "device", "path": A(b"/memfd:psv (deleted)")}, "pos": 0, "flags": 2, "tail": "", "closes": None}]},
+        # … while the process is a zombie-to-be / next to a refusal (the refusal wins: AccessDenied)
+        {"family": "corpus-unstatable-and-denied", "gone_before": False, "dies_at": None,
+         "stat_fail": [[P(b"gone.txt"), errno.ENOTDIR], [P(b"gone.txt" + DEL), errno.ENOTDIR]],
+         "fds": [
+            {"n": 3, "kind": {"t": "regular", "path": P(b"gone.txt"), "deleted": True}, "pos": 5, "flags": 2, "tail": "", "closes": None},
+            {"n": 4, "kind": {"t": "regular", "path": P(b"sec/hidden.txt"), "deleted": False}, "pos": 1, "flags": 2, "tail": "", "closes": None}]},
         # ---- round 3
         # audit item 4: os.stat of every non-absolute link text is refused (unsearchable cwd of the monitor): sockets, pipes,
         # anon inodes and relative targets are never stat'ed → the call succeeds and lists the regular file
@@ -1510,7 +1730,8 @@ def correspond(ctx, res):
     impl = Impl(ctx)
     try:
         res.rule = ("descriptor tables (0..64 descriptors of six kinds x closing stages x refusals (EACCES at readlink / "
-                    "target stat / fdinfo / fd directory) x process states (running, zombie, exiting, dying, gone)), each "
+                    "target stat / fdinfo / fd directory) x targets whose os.stat fails with another errno (real ENOTDIR / ELOOP / "
+                    "ENAMETOOLONG names, per-name injected errnos at the name / the ' (deleted)' text / the marker-less cut) x process states (running, zombie, exiting, dying, gone)), each "
                     "run in a call mode (plain, oneshot, warm oneshot after a world change, as_dict, process_iter object, "
                     "cached process_iter object, second call) and "
                     "/proc/pid/io files from clause-directed families (PRNG from VERIF_SEED; every content has a promised "
@@ -1535,7 +1756,14 @@ def correspond(ctx, res):
         base_corpus = corpus_tables()
         kp = kind_prefix_sweep()
         res.extra["kind_x_prefix_tables"] = len(kp)
-        tables = [dict(c, mode=m, family=c["family"]) for m in MODES for c in base_corpus] + kp + sweep + big_tables()
+        # seeded round 5: every errno of the host x every stat site (quick: every errno in the full table + the three
+        # single-site tables for the errnos a file system really answers; thorough: everything)
+        ses = stat_errno_sweep()
+        if ctx.tier == "quick":
+            ses = [c for c in ses if len(c["fds"]) > 1 or c["stat_fail"][0][1] in STAT_ERRNOS]
+        res.extra["stat_errno_sweep_tables"] = len(ses)
+        res.extra["stat_errnos"] = len(ALL_STAT_ERRNOS)
+        tables = [dict(c, mode=m, family=c["family"]) for m in MODES for c in base_corpus] + kp + ses + sweep + big_tables()
         n = ctx.n(260, 9000)
         for i in range(n):
             tables.append(gen_table(ctx.rng, TABLE_FAMILIES[i % len(TABLE_FAMILIES)]))
@@ -1578,7 +1806,10 @@ def correspond(ctx, res):
                           "O_APPEND/O_NONBLOCK and the unnamed low bits) through file_flags_to_mode AND end to end through "
                           "open_files() on 64 tables of 64 regular descriptors; every scripted target kind (regular file, directory, FIFO, "
                           "character device, dangling) x every path prefix (/dev/, /dev/shm/, /dev/pts/, /proc/, /sys/, /run/, /, the "
-                          "temp root, device-looking names) x unlinked marker, one descriptor per table and all together; every call mode (%s) x every method on the "
+                          "temp root, device-looking names) x unlinked marker, one descriptor per table and all together; every errno of the host "
+                          "except ENOENT/EACCES/EPERM as the answer of os.stat at every place the scan can meet it (path_exists_strict on the "
+                          "marker text, isfile_strict on the name / the marker-less cut, a non-absolute marker text), all together per errno "
+                          "(plus one table per stat site: for the file-system errnos at quick tier, for all at thorough); every call mode (%s) x every method on the "
                           "clause-directed corpus (%d tables incl. the permission / zombie / file-kind ones, %d io files, %d raw io "
                           "cases); every /proc/pid/io line made of at most %d tokens of the alphabet {syscr, xtra, ': ', ':', ' ', "
                           "9, -, +, _} (%d lines: duplicate keys, unknown names, names with blanks, signed / underscored / "
